@@ -250,7 +250,7 @@ def parse_assumptions(out, ths):
             if res[cur] is None:
                 res[cur] = []
         elif res.get(cur) is not None:
-            m2 = re.match(r"^([A-Za-z0-9_.']+)\s*:", line)
+            m2 = re.match(r"^([A-Za-z0-9_.']+)\s*(:|$)", line)
             if m2:
                 res[cur].append(m2.group(1))
     return res
